@@ -66,6 +66,7 @@ MC_MODELS = {
     # ... and the same two facts as TLAPS theorems (no bound on anything; thorough tier)
     "len_tlaps": {"module": "LenMachine.tla", "tlaps": "LenMachineProof.tla", "timeout": 1800, "thorough_only": True},
     "enclen_tlaps": {"module": "EncLenMachine.tla", "tlaps": "EncLenMachineProof.tla", "timeout": 1800, "thorough_only": True},
+    "hid_tlaps": {"module": None, "tlaps": "HidingArith.tla", "timeout": 900, "thorough_only": True},
     # the position arithmetic of the encoder with octet values forgotten: TLC with scaled-down limits (both
     # refusals reached) and Apalache: Safe is INDUCTIVE for writers, AVP counts and payloads of any size
     "enclen_tlc": {"module": "../EncLenMachine.tla", "cfg": "MCEncLenMachine.cfg"},
@@ -161,14 +162,14 @@ PROPS = {
         "assumptions": COMMON_ASSUMPTIONS,
     },
     "C11": {
-        "mc": ["hid_hide"], "gen": ["hide_reveal", "reveal_plain", "hide", "text_classes"],
+        "mc": ["hid_hide", "hid_tlaps"], "gen": ["hide_reveal", "reveal_plain", "hide", "text_classes"],
         "rule": "all 39 kinds x secrets {empty,1,15,64 octets,...} x length paddings hitting 1..6 (thorough: ..63) blocks and "
                 "exact multiples of 16; directly and after encode/decode of the hidden AVP; TLC: RevealHide with a toy "
                 "hash over every plaintext length for 1..4 blocks and paddings 0..20",
         "assumptions": COMMON_ASSUMPTIONS,
     },
     "C12": {
-        "mc": ["hid_hide"], "gen": ["hide", "hide_reveal", "reveal", "history", "text_classes", "reveal_plain"],
+        "mc": ["hid_hide", "hid_tlaps"], "gen": ["hide", "hide_reveal", "reveal", "history", "text_classes", "reveal_plain"],
         "rule": "hidden values compared with RFC 2661 s4.3 computed by TLC with MD5 written in TLA+ (RFC 1321 vectors "
                 "assumed at load); block counts 1..8 (thorough: ..63); reveal of arbitrary hidden values likewise; "
                 "TLC: declarative definition = in-place loops, HiddenLength",
